@@ -162,12 +162,6 @@ func (eng *engine) activateReactors(ctx context.Context, numEventLoop int) error
 		eng.eventLoops.register(el)
 	}
 
-	// Start sub reactors in the background.
-	eng.eventLoops.iterate(func(_ int, el *eventloop) bool {
-		eng.concurrency.Go(el.orbit)
-		return true
-	})
-
 	p, err := netpoll.OpenPoller()
 	if err != nil {
 		return err
@@ -186,6 +180,14 @@ func (eng *engine) activateReactors(ctx context.Context, numEventLoop int) error
 			return err
 		}
 	}
+
+	// Start sub reactors in the background, only now that nothing can fail anymore:
+	// a sub reactor left polling after a failed start would go on waiting on the
+	// descriptor number of its closed poller, which the next poller may reuse.
+	eng.eventLoops.iterate(func(_ int, el *eventloop) bool {
+		eng.concurrency.Go(el.orbit)
+		return true
+	})
 
 	// Start the main reactor in the background.
 	eng.concurrency.Go(el.rotate)
